@@ -17,7 +17,7 @@ import types
 import z3
 
 from . import srcmap
-from .values import (G, SInt, SBool, Unknown, Unsupported, WidthError, HarnessError, Unmergeable,
+from .values import (SStr, G, SInt, SBool, Unknown, Unsupported, WidthError, HarnessError, Unmergeable,
                      is_sym, has_sym, has_unknown, bvv, zt, zb, mk_int, mk_bool, truth, bounds, binop,
                      neg, invert, not_, eq_val, cmp_ints, merge, fresh_bool, fresh_int)
 
@@ -120,6 +120,7 @@ class Engine:
         self.cov = {}               # (file, lineno) -> set of arms reached ('T','F')
         self.returns = set()        # (file, lineno) of return statements reached
         self.feas_cache = {}
+        self.no_merge_names = set()  # local variable names whose differing concrete values keep states forked
         self.const_override = {}     # {(function name, int constant): replacement} -- a documented cut (e.g. size thresholds)
         self.inline_policy = None    # abstract mode: callable(fn, depth) -> bool (inline) ; else stubbed as may-raise Unknown
         self.stubbed = set()
@@ -170,6 +171,8 @@ class Engine:
         """Python truth of an arbitrary value -> outcomes (state, NORMAL, bool|SBool|Unknown)"""
         if isinstance(v, Unknown):
             return [(st, NORMAL, v)]
+        if isinstance(v, SStr):
+            return [(st, NORMAL, len(v) > 0)]
         if isinstance(v, (SInt, SBool, bool, int, str, tuple, list, dict, type(None), float)):
             return [(st, NORMAL, truth(v))]
         if is_mp_object(v):
@@ -201,6 +204,9 @@ class Engine:
         """-> outcomes"""
         if isinstance(obj, Unknown):
             return [(st, NORMAL, Unknown('attr', obj.tag))]
+        if isinstance(obj, SStr):
+            from .strings import SStrMethod
+            return [(st, NORMAL, SStrMethod(obj, name))]
         if isinstance(obj, (SInt, SBool)):
             raise Unsupported('attribute %s of symbolic int' % name)
         if isinstance(obj, Closure):
@@ -263,6 +269,8 @@ class Engine:
             return m(self, st, list(args), dict(kwargs), fr)
         if isinstance(fn, Unknown):
             return self.unknown_call(st, fn, args, kwargs)
+        if type(fn).__name__ == 'SStrMethod':
+            return fn.invoke(self, st, args, kwargs)
         if isinstance(fn, Closure):
             return self.call_closure(st, fn, args, kwargs, depth)
         if isinstance(fn, BoundClosure):
@@ -611,6 +619,8 @@ class Engine:
             env = {}
             for k in keys:
                 if any(k not in s.env for s in states):
+                    raise Unmergeable()
+                if k in self.no_merge_names and any(s.env[k] is not states[0].env[k] and s.env[k] != states[0].env[k] for s in states[1:]):
                     raise Unmergeable()
                 v = states[-1].env[k]
                 for s, c in zip(reversed(states[:-1]), reversed(conds[:-1])):
@@ -1338,7 +1348,7 @@ class Engine:
             return [(s, NORMAL, self.sfloat_binop(op, a, b))]
         G.CUR = (self, s.pc)
         try:
-            if isinstance(a, (tuple, list, str)) or isinstance(b, (tuple, list, str)):
+            if isinstance(a, (tuple, list, str, SStr)) or isinstance(b, (tuple, list, str, SStr)):
                 return [(s, NORMAL, self.seq_binop(op, a, b))]
             if isinstance(a, float) or isinstance(b, float):
                 if is_sym(a) or is_sym(b):
@@ -1364,6 +1374,11 @@ class Engine:
         raise Unsupported('float-model arithmetic other than scaling by a power of two')
 
     def seq_binop(self, op, a, b):
+        if isinstance(a, SStr) or isinstance(b, SStr):
+            if op is operator.add and isinstance(a, (SStr, str)) and isinstance(b, (SStr, str)):
+                from .strings import concat
+                return concat(a, b)
+            raise Unsupported('operator on symbolic string')
         if op is operator.add and type(a) is type(b):
             return a + b
         if op is operator.mul and isinstance(a, (tuple, list, str)) and isinstance(b, int) and not is_sym(b):
@@ -1514,6 +1529,17 @@ class Engine:
                     return [(s, NORMAL, r)]
                 return [(s, NORMAL, cmp_ints(self.CMPSYM[type(op)], ai, bi))]
             return [(s, NORMAL, Unknown('cmp'))]
+        if isinstance(a, SStr) or isinstance(b, SStr):
+            from . import strings as S
+            if isinstance(op, (ast.In, ast.NotIn)) and isinstance(a, SStr) and isinstance(b, str):
+                r = S.contains(a, b)
+                return [(s, NORMAL, r if isinstance(op, ast.In) else not_(r))]
+            if isinstance(op, (ast.Eq, ast.NotEq)) and isinstance(a, (SStr, str)) and isinstance(b, (SStr, str)):
+                r = S.seq_eq(a, b)
+                return [(s, NORMAL, r if isinstance(op, ast.Eq) else not_(r))]
+            if isinstance(op, (ast.Eq, ast.NotEq)):
+                return [(s, NORMAL, isinstance(op, ast.NotEq))]
+            raise Unsupported('comparison on symbolic string')
         if isinstance(op, (ast.In, ast.NotIn)):
             return self.contains(s, a, b, fr, isinstance(op, ast.NotIn))
         if is_mp_object(a) or is_mp_object(b):
@@ -1709,6 +1735,13 @@ class Engine:
             return [(s, NORMAL, Unknown('item', t))]
         if isinstance(i, SBool):
             i = mk_int(zt(i), 0, 1)
+        if isinstance(c, SStr):
+            if is_sym(i):
+                raise Unsupported('symbolic index into symbolic string')
+            try:
+                return [(s, NORMAL, SStr([c.chars[i]]))]
+            except IndexError as ex:
+                return [(s, RAISE, ex)]
         if not is_sym(i):
             if is_mp_object(c):
                 gi = self.find_class_attr(type(c), '__getitem__')
